@@ -317,6 +317,9 @@ func c10Route(r *Run, rawPeer bool) {
 				break
 			}
 		}
+		// handlers run before the event is queued: one more sleep lets every runnable task (the
+		// incoming loop in particular) reach its next blocking point before the queue is inspected
+		r.Sleep(200 * time.Millisecond)
 		evc := cc.EventChannel()
 	drain:
 		for {
